@@ -870,9 +870,11 @@ static void run_case(Alg const& alg, Run const& run, std::vector<int> const& ka,
     // recorded as a "hang" event (judged by the trace specification); the rest of the group is abandoned
     g_hung = 0;
     if (sigsetjmp(g_jmp, 1) == 0) {
-        alarm(VH_HANG_SECONDS);
+        // CPU time, not wall-clock: a heavily loaded machine must not turn a slow schedule into a "hang"
+        struct itimerval tv_on{{0, 0}, {VH_HANG_SECONDS, 0}}, tv_off{{0, 0}, {0, 0}};
+        setitimer(ITIMER_VIRTUAL, &tv_on, nullptr);
         run.fn(x);
-        alarm(0);
+        setitimer(ITIMER_VIRTUAL, &tv_off, nullptr);
     } else {
         g_hung = 1;
         x.r.clear();
@@ -979,7 +981,7 @@ int main(int argc, char** argv)
             }
             return k;
         };
-        std::signal(SIGALRM, on_alarm);
+        std::signal(SIGVTALRM, on_alarm);
         std::printf("{\"op\":\"#replay\",\"inst\":\"-\"}\n");
         bool found = false;
         for (auto const& a : table()) {
@@ -998,7 +1000,7 @@ int main(int argc, char** argv)
         std::fprintf(stderr, "usage: algo_driver list | run <domain> <op|op/cat,...|all>\n");
         return 2;
     }
-    std::signal(SIGALRM, on_alarm);
+    std::signal(SIGVTALRM, on_alarm);
     Domain dom      = read_domain(argv[2]);
     std::string sel = std::string(",") + argv[3] + ",";
     bool all        = std::strcmp(argv[3], "all") == 0;
